@@ -113,6 +113,33 @@ def callLines (s : BState) : Call → List String
   | .done => ["done" ++ stackStr s.frags]
   | .error _ => []
 
+/-- the name of the ParserBuilder callback a call stands for -/
+def callName : Call → String
+  | .declItem _ => "declaration"
+  | .declParam _ => "decl_parameter"
+  | .pushExpr _ => "expression"
+  | .procBegin _ => "proc_begin"
+  | .procLocation _ _ _ => "proc_location"
+  | .procLocationCommit _ => "proc_location_commit"
+  | .procLocationUrgent _ => "proc_location_urgent"
+  | .procBranchpoint _ => "proc_branchpoint"
+  | .procLocationInit _ => "proc_location_init"
+  | .procEdgeBegin _ _ _ => "proc_edge_begin"
+  | .procSelect _ _ => "proc_select"
+  | .procGuard => "proc_guard"
+  | .procSync _ => "proc_sync"
+  | .procUpdate => "proc_update"
+  | .procProb => "proc_prob"
+  | .procEdgeEnd _ _ => "proc_edge_end"
+  | .procEnd => "proc_end"
+  | .instBegin _ _ _ => "instantiation_begin"
+  | .instEnd _ _ _ _ => "instantiation_end"
+  | .process _ => "process"
+  | .priorityInc => "proc_priority_inc"
+  | .processListEnd => "process_list_end"
+  | .done => "done"
+  | .error _ => "handle_error"
+
 def traceLines : BState → List Call → List String
   | _, [] => []
   | s, c :: r => callLines s c ++ traceLines (step s c) r
